@@ -199,7 +199,9 @@ class DualQuaternion:
                 return DualQuaternion(real, dual)
         elif isinstance(left, UnitDualQuaternion) and base.isvector(right, 3):
             v = base.getvector(right, 3)
-            vp = left * DualQuaternion.Pure(v) * left.conj()
+            # conjugate for point transformation: quaternion conjugate of both parts and
+            # negation of the dual part
+            vp = left * DualQuaternion.Pure(v) * DualQuaternion(left.real.conj(), left.dual.conj() * -1)
             return vp.dual.v
 
     def matrix(self):
